@@ -204,6 +204,22 @@ PROPS = {
         'level_note': 'Trusted: rustc front end + MIR, the extractor, std str/String semantics.',
         'technique': 'expected-zero API lint + index-provenance dataflow + dominator rules over resolved MIR (rustc_private driver)',
     },
+    'C14': {
+        'module': 'c14',
+        'explanation': 'Domination and who-may-write rules over MIR of the import path: loader call, compile, registration and the module '
+                       'body call are confined to the miss edge of the registry look-up; the registry has one writer which looks up before '
+                       'creating; the imported flag is false on creation and set only by FinishImport; the hit edge distinguishes a module '
+                       'still being loaded; global opcodes touch only active_module.attributes; load_frame is the only run-time writer of '
+                       'active_module; closures record the module they were created in; every failure edge of start_import_impl goes '
+                       'through try_handle_error with ErrorKind::ImportError.',
+        'assumptions': COMMON_ASSUME,
+        'not_decided': ['that every import yields the *same* object at run time (follows from the single registry writer, not executed)',
+                        'visibility of built-ins in every module (init_built_in_globals contents)'],
+        'level_text': 'Decides M1-M3 for the import handler, the registry and the global-variable handlers.',
+        'design_ref': 'DESIGN.md section 1, C14',
+        'level_note': 'Trusted: rustc front end + MIR, the extractor.',
+        'technique': 'dominator + who-may-write + error-origin rules over resolved MIR (rustc_private driver)',
+    },
 }
 
 NOT_APPLICABLE = {
